@@ -349,6 +349,26 @@ def apalache_inductive(ctx):
                 ctx.violation('C14.UniqueLive(design)', dict(kind='design-counterexample', module='AdbAllocInd', obligation=name, tail=out[-1500:]))
                 return
         rec['status'] = 'all proved' if all(o['verdict'] == 'proved' for o in rec['obligations']) else 'not all obligations discharged'
+        # non-vacuity: without the lock guard of Acq the step obligation must have a counterexample
+        if rec['status'] == 'all proved':
+            mut = os.path.join(wd, 'mut')
+            os.makedirs(mut)
+            src = open(os.path.join(tlc.TLA, 'AdbAllocInd.tla')).read()
+            guard = 'pc[t] = "idle" /\\ lock = "free" /\\ lock\' = t'
+            if guard not in src:
+                raise tlc.TlcError('AdbAllocInd: the Acq guard to mutate was not found')
+            with open(os.path.join(mut, 'AdbAllocInd.tla'), 'w') as f:
+                f.write(src.replace(guard, 'pc[t] = "idle" /\\ lock\' = t'))
+            shutil.copy(os.path.join(wd, 'MCAllocInd.tla'), mut)
+            try:
+                p = subprocess.run([exe, 'check', '--cinit=ConstInit', '--init=IndInv', '--inv=IndInv', '--length=1', '--out-dir=' + os.path.join(mut, 'out'),
+                                    'MCAllocInd.tla'], cwd=mut, stdout=subprocess.PIPE, stderr=subprocess.STDOUT, timeout=900)
+                rc = p.returncode
+            except subprocess.TimeoutExpired:
+                rc = 'timeout'
+            rec['sanity_mutation_no_lock'] = 'rejected (counterexample to the step obligation)' if rc == 12 else 'inconclusive (%r)' % (rc,)
+            if rc == 0:
+                raise tlc.TlcError('vacuity: AdbAllocInd without the lock guard still passes the step obligation')
         if rec['status'] == 'all proved':
             ctx.count(evaluations=len(obligations))
     finally:
